@@ -103,6 +103,43 @@ func (p *c12) pairChecks(x *res, a, b string, ctx *runner.Ctx) {
 			x.viol("contains"+explainBool(got2 == refmodel.T, f64(a) == f64(b) || f64(b) == 77), "contains-ns", fmt.Sprintf("contains(NS{%s,77}, %s) evaluates to %s, exact %s", a, b, outcomeName(got2), want2), map[string]interface{}{"a": a, "b": b})
 		}
 	}
+	// whole number sets: equal iff they have the same members BY VALUE, however the members are written and ordered
+	// (also inside a list and a map, and as a member of IN)
+	{
+		stored := val.NS(a, "77")
+		other := val.NS("7.7e1", b)
+		eq := val.NumEqual(a, b)
+		if val.NumEqual(a, "77") || val.NumEqual(b, "77") {
+			eq = val.NumEqual(a, "77") && val.NumEqual(b, "77")
+		}
+		for fi, form := range []struct {
+			item val.Item
+			cond *refmodel.Cond
+			vals val.Item
+		}{
+			{val.Item{"ns": stored}, &refmodel.Cond{Op: "cmp", Cmp: "=", Args: []refmodel.Operand{{Kind: "path", Path: refmodel.P("ns")}, valV}}, val.Item{":v": other}},
+			{val.Item{"ns": stored}, &refmodel.Cond{Op: "cmp", Cmp: "<>", Args: []refmodel.Operand{{Kind: "path", Path: refmodel.P("ns")}, valV}}, val.Item{":v": other}},
+			{val.Item{"ns": stored}, &refmodel.Cond{Op: "in", Args: []refmodel.Operand{{Kind: "path", Path: refmodel.P("ns")}, {Kind: "val", Val: ":w"}, valV}}, val.Item{":v": other, ":w": val.NS("123456")}},
+			{val.Item{"l": val.List(stored, val.Str("x"))}, &refmodel.Cond{Op: "cmp", Cmp: "=", Args: []refmodel.Operand{{Kind: "path", Path: refmodel.P("l")}, valV}}, val.Item{":v": val.List(other, val.Str("x"))}},
+			{val.Item{"m": val.Map(map[string]val.V{"s": stored})}, &refmodel.Cond{Op: "cmp", Cmp: "=", Args: []refmodel.Operand{{Kind: "path", Path: refmodel.P("m")}, valV}}, val.Item{":v": val.Map(map[string]val.V{"s": other})}},
+		} {
+			got, _, _, _ := matchDirect(form.cond.Render(map[string]string{}, rrCanon), nil, form.item, form.vals)
+			x.r.Evals++
+			want := eq
+			if fi == 1 {
+				want = !eq
+			}
+			if got != 0 && got != refmodel.R && (got == refmodel.T) != want {
+				x.viol("number-set-equality"+explainBool(got == refmodel.T, func() bool {
+					fe := f64(a) == f64(b)
+					if fi == 1 {
+						return !fe
+					}
+					return fe
+				}()), "whole-set", fmt.Sprintf("form %d: the number sets {%s, 77} and {7.7e1, %s} compare as %s, by value they are equal=%v", fi, a, b, outcomeName(got), eq), map[string]interface{}{"a": a, "b": b, "form": fi})
+			}
+		}
+	}
 	// BETWEEN a AND a (degenerate interval) and ordered intervals
 	{
 		lo, hi := a, b
@@ -563,6 +600,44 @@ func (p *c12) sortOrder(x *res, adapter string, ctx *runner.Ctx) {
 	}
 }
 
+// expectedNotations: the legacy "Expected" parameter in its short form (attribute = value) is a condition like any
+// other: a number that equals the stored one in ANOTHER notation (5 / 5.0, 100 / 1e2, 0 / -0), or a number set with
+// the same members written differently, satisfies it. The library may not implement the parameter at all (then the
+// write simply happens) - what it may not do is refuse the write as "condition failed".
+func (p *c12) expectedNotations(x *res, adapter string) {
+	spec := mon.SpecHashOnly("tbl12e")
+	pairs := [][2]val.V{{val.Num("5"), val.Num("5.0")}, {val.Num("100"), val.Num("1e2")}, {val.Num("0"), val.Num("-0")}, {val.Num("0.5"), val.Num("5E-1")}, {val.Num("10"), val.Num("10.00")},
+		{val.Num("-3"), val.Num("-3.000")}, {val.NS("1", "2"), val.NS("2.0", "1")}, {val.NS("10"), val.NS("1e1")}}
+	for pi, pr := range pairs {
+		for wi, kind := range []string{adapt.OpPut, adapt.OpUpdate, adapt.OpDelete} {
+			cl, _, ds := freshClient(adapter, spec)
+			if ds != nil {
+				return
+			}
+			cl.Do(adapt.Op{Kind: adapt.OpPut, Table: spec.Name, Item: val.Item{"h": val.Str("k"), "n": pr[0]}})
+			key := val.Item{"h": val.Str("k")}
+			var op adapt.Op
+			switch kind {
+			case adapt.OpPut:
+				op = adapt.Op{Kind: kind, Table: spec.Name, Item: val.Item{"h": val.Str("k"), "n": pr[0], "marker": val.Str("rewritten")}}
+			case adapt.OpUpdate:
+				op = mon.SetUpdate(spec.Name, key, "marker", val.Str("updated"))
+			default:
+				op = adapt.Op{Kind: kind, Table: spec.Name, Key: key}
+			}
+			op.Expected = val.Item{"n": pr[1]}
+			got := cl.Do(op)
+			x.r.Evals++
+			x.r.Counters["expected_short_form_writes"]++
+			x.fp(true, "%s|expected|%d|%d", adapter, pi, wi)
+			if got.Class != adapt.ClsOK {
+				x.viol("expected-number-in-another-notation", kind, fmt.Sprintf("[%s] %s with Expected {n: %s} on an item whose n is %s: %s (%s); the two are the same number", adapter, kind, pr[1].Canon(), pr[0].Canon(), got.Class, got.Msg),
+					map[string]interface{}{"adapter": adapter, "op": op, "stored": pr[0], "outcome": got})
+			}
+		}
+	}
+}
+
 func (p *c12) RunCase(ctx *runner.Ctx) runner.CaseResult {
 	x := newRes()
 	n := len(c12Pool)
@@ -581,6 +656,7 @@ func (p *c12) RunCase(ctx *runner.Ctx) runner.CaseResult {
 		p.keyIdentity(x, adapt.Adapters[ctx.Case-n], ctx)
 	case ctx.Case < n+4:
 		p.sortOrder(x, adapt.Adapters[ctx.Case-n-2], ctx)
+		p.expectedNotations(x, adapt.Adapters[ctx.Case-n-2])
 	case ctx.Case < n+8:
 		// same value in five notations against every pool member
 		for _, a := range []string{"1.0", "01", "1e0", "10E-1", "0.10E1"}[ctx.Case-n-4 : ctx.Case-n-3] {
